@@ -10,7 +10,7 @@
 //! Oracle (b) `raw_response_type.ts`: the response-key tree with list depth equals the one derived
 //! from the operation's refgql AST and the reference schema; at abstract positions (inline
 //! fragments) one variant per type condition, compared as a multiset of shapes.
-use crate::driver::{self, ArtExclusions, CaseInfo, Compiled};
+use crate::driver::{self, CaseInfo, Compiled};
 use crate::ops;
 use gen_project::{DeclKind, Project, Sel, Target};
 use refgql::schema::TypeKind;
@@ -267,7 +267,7 @@ fn expected_shape(cx: &mut Cx, sel: &SelectionSet, parent: &str) -> Shape {
             _ => None,
         })
         .collect();
-    let mut variant_for = |cx: &mut Cx, ty: &str, extra: Option<&SelectionSet>| {
+    let variant_for = |cx: &mut Cx, ty: &str, extra: Option<&SelectionSet>| {
         let mut m = BTreeMap::new();
         let extra_fields: Vec<&refgql::Field> = extra
             .map(|s| {
@@ -505,7 +505,7 @@ pub fn run(args: &Args) {
          fragments / interface- or union-typed field); distinct by the set of such type artifacts",
     );
     report.assumption("for the checked-in projects the selection tree is read from the reader AST of the same field (no model exists)");
-    let ex = ArtExclusions::default();
-    driver::run_single(args, &report, 1600, 48_000, &ex, &oracle);
+    let ex = driver::negative_int_exclusion();
+    driver::run_single(args, &report, 4000, 120_000, &ex, &oracle);
     report.finish();
 }
